@@ -200,7 +200,7 @@ def analyse(chk, cases, lines, parsed, mout):
         nmig = 0 if p['PH'] == 'PH -' else len(p['PH'].split()) - 1
         stats['migrations_per_case'][str(nmig)] = stats['migrations_per_case'].get(str(nmig), 0) + 1
         stats['proxies_per_state'][name] = p['OBS'].count('=')
-        for tok in p['PH'].split()[1:]:
+        for tok in (p['PH'].split()[1:] if nmig > 0 else []):
             pair = tok.split('=')[1] if '=' in tok else '?'
             stats['pairs_exercised_on_real_tasks'][pair] = stats['pairs_exercised_on_real_tasks'].get(pair, 0) + 1
         mon = p['MON']
